@@ -54,6 +54,21 @@ func (s *seqSink) ReportMdnsEntries(entries map[string]*api.MdnsEntry, newEntrie
 	s.mu.Unlock()
 }
 
+// a receiver that treats what it is handed as its own (the hub, for one, overwrites the address list of an entry
+// it is about to dial): nothing it does may reach the manager's view
+type scribbleSink struct{}
+
+func (scribbleSink) ReportMdnsEntries(entries map[string]*api.MdnsEntry, newEntries bool) {
+	for k, e := range entries {
+		e.Addresses = []net.IP{}
+		e.Ski = "scribbled"
+		e.Host = "scribbled"
+		e.Name = "scribbled"
+		e.Port = 1
+		delete(entries, k)
+	}
+}
+
 func entriesLine(m map[string]*api.MdnsEntry, order []string) string {
 	var parts []string
 	for _, ski := range order {
@@ -92,7 +107,12 @@ func mdnsviewMain(args []string) int {
 	}
 	for h := 0; h < *n; h++ {
 		m := mdns.NewMDNS("ski0", "", "", "", "", nil, "local", "svc", 1, nil, mdns.MdnsProviderSelectionGoZeroConfOnly)
-		m.VerifSetProvider(&fakeProvider{}, nullReport{})
+		scribble := h%8 == 7
+		if scribble {
+			m.VerifSetProvider(&fakeProvider{}, scribbleSink{})
+		} else {
+			m.VerifSetProvider(&fakeProvider{}, nullReport{})
+		}
 		fmt.Fprintf(bi, "new ll=%s\n", strings.Join(llIDs, ","))
 		fmt.Fprintln(bo, "new")
 		var order []string // insertion order, as the model keeps it
@@ -126,6 +146,9 @@ func mdnsviewMain(args []string) int {
 			before := m.VerifRawEntries()
 			_, existed := before[ski]
 			m.VerifResolve(el, "svc-"+ski, "host.local", ips, 4711, remove)
+			if scribble {
+				time.Sleep(150 * time.Microsecond) // let the report goroutine reach the receiver
+			}
 			after := m.VerifRawEntries()
 			if _, ok := after[ski]; ok && !existed {
 				order = append(order, ski)
